@@ -1431,11 +1431,13 @@ class MultiDimGridPDF(
             pd = self._cache_pd
         else:
             pd = self._cache_pd[evt_mask]
-            # If this PDF is evaluated for different sources, i.e. a subset of
-            # pd values, those values could still be NaN and still need to be
-            # calculated.
-            if np.any(np.isnan(pd)):
-                return None
+
+        # If this PDF is evaluated for different sources, i.e. a subset of
+        # pd values, the requested values could still be NaN, i.e. not
+        # calculated yet. This holds also when all values are requested after
+        # only subsets of the values have been calculated.
+        if np.any(np.isnan(pd)):
+            return None
 
         return pd
 
